@@ -3,12 +3,12 @@ From TS Require Import Base.Res Model.Timestamp Model.Packet Model.PacketObs Mod
 Open Scope N_scope.
 
 (* what the recording consumer notes about one delivery *)
-Definition rec_inner (compact : bool) (_ : unit) (h : common_header) (tsh data : list N) (origin : option nat)
-  : res (unit * list (list N)) :=
+Definition rec_inner (compact : bool) (_ : unit) (_ : unit) (h : common_header) (tsh data : list N) (origin : option nat)
+  : res (unit * unit * list (list N)) :=
   do t <- (if compact then Ok []
            else do id <- tsh_id tsh; do v <- tsh_version tsh; do cn <- tsh_current_next tsh;
                 do sn <- tsh_section_number tsh; do ls <- tsh_last_section_number tsh; Ok [id; v; cn; sn; ls]);
-  Ok (tt, [[ch_table_id h; b2n (ch_ssi h); b2n (ch_private h); n2 (ch_section_length h)] ++ t
+  Ok (tt, tt, [[ch_table_id h; b2n (ch_ssi h); b2n (ch_private h); n2 (ch_section_length h)] ++ t
            ++ match origin with Some o => [1; n2 o] | None => [0; 0] end
            ++ n2 (length data) :: data]).
 
@@ -21,11 +21,9 @@ Fixpoint run_sec_loop (cfg : chain_cfg) (c : chain unit) (pkts : list (list N)) 
   | [] => Ok []
   | p :: rest =>
       do pk <- pkt_new p;
-      do r <- spc_consume cfg unit (list N) (rec_inner (cf_compact cfg)) c pk;
-      let evs := map (fun e => match e with
-                               | a :: b :: c' :: d :: r' => e   (* origin is rewritten below *)
-                               | _ => e end) (snd r) in
-      do more <- run_sec_loop cfg (fst r) rest (S i);
+      do r <- spc_consume cfg unit unit (list N) (rec_inner (cf_compact cfg)) c tt pk;
+      let evs := snd r in
+      do more <- run_sec_loop cfg (fst (fst r)) rest (S i);
       Ok (n2 (length evs) :: concat evs ++ more)
   end.
 
